@@ -20,6 +20,7 @@ type Obligation struct {
 	Trivial bool  // goal is literally true
 	PathID int
 	Reach  bool
+	Fields []fieldVar // scalar locations reachable from the parameters (entry values), for replay
 	Vars   []modelVar // terms whose model values are interesting for replay
 }
 
